@@ -57,7 +57,7 @@ CLAIMS = {
         note="each ordered pair judged independently"),
     "C13": dict(category="exploration", design="4/C13",
         technique="bounded-exhaustive enumeration of ordered pairs of searchers x both finder variants; oracles of C01/C02/C12 on the returned pair",
-        text="All ordered pairs of the quick start classes x packs {base, symmetry, inferral, two expansion sets,...} x {ParallelSpecFinder, EqPathParallelSpecFinder}, with fresh searchers and (for packs with alternative rules) with both universes fully expanded beforehand: find() returns None or two specifications, each valid for its own start class, isomorphic, with a valid bijection; no exception. Plus ordered pairs of the regular languages with <= 2 DFA states (R-domain: first-letter / last-letter decompositions, alternative rules, shared classes).",
+        text="All ordered pairs of the quick start classes x packs {base, symmetry, inferral, two expansion sets,...} x {ParallelSpecFinder, EqPathParallelSpecFinder}, with fresh searchers and (for packs with alternative rules) with both universes fully expanded beforehand: find() returns None or two specifications, each valid for its own start class, isomorphic, with a valid bijection; no exception. Plus ordered pairs of the regular languages with <= 2 DFA states (R-domain: first-letter / last-letter decompositions, alternative rules, shared classes, restricted strategy variants) and of the 3-state languages with equal counts up to size 6 (quick: every 12th pair).",
         note="RuleDB only (the finder supports nothing else)"),
     "C14": dict(category="model_checking", design="4/C14",
         technique="lock-step runs of the two rule databases on the same controlled schedule with an observer after every insertion",
